@@ -40,6 +40,8 @@ PROPS = {
     "C09": dict(fam=["route", "cls", "tandem", "prio"], mc=["route", "cls", "tandem"], inv=["Inv_C09"], step=["Step_C09"]),
     "C11": dict(fam=["preempt"], mc=["preempt"], inv=["Inv_C11"], step=["Step_C11"]),
     "C13": dict(fam=["renege", "core1"], mc=["renege"], inv=["Inv_C13"], step=["Step_C13"]),
+    "C17": dict(fam=["trk"], mc=["trk", "dead"], inv=["Inv_C17"], step=["Step_C17"]),
+    "C18": dict(fam=["dead"], mc=["dead"], inv=["Inv_C18"], step=["Step_C18"]),
     "C14": dict(fam=["stopcount", "core1", "tandem", "prio", "cls", "renege", "route", "preempt"],
                 mc=["core1", "stopcount"], inv=[], step=["Step_C14"]),
 }
